@@ -245,6 +245,7 @@ pub fn run(ctx: &Ctx) -> i32 {
     Pow4(u32),
     LongScatter(u32),
     Alias(u8),
+    Blocks(u8, u8),
     SameNumber,
   }
   let mut jobs: Vec<Job> = (0..njobs_hist).map(Job::Hist).collect();
@@ -321,6 +322,14 @@ pub fn run(ctx: &Ctx) -> i32 {
   // index kept in a narrower integer makes them look consecutive), every depth where they exist
   for d in 5..=29u8 {
     jobs.push(Job::Alias(d));
+  }
+  // several complete blocks of different heights: block (t, l) = the 4^l cells of depth t + l filling
+  // one cell of depth t (l packing passes merge it); two and three blocks in distinct cells, every
+  // (t1, l1) x (t2, l2) with t <= 3, l <= 3 -- one pass then merges at several depths at once
+  for l1 in 1..=3u8 {
+    for l2 in 1..=3u8 {
+      jobs.push(Job::Blocks(l1, l2));
+    }
   }
   jobs.push(Job::SameNumber);
   let chunk = 256;
@@ -573,6 +582,41 @@ pub fn run(ctx: &Ctx) -> i32 {
           }
         }
       }
+      Job::Blocks(l1, l2) => {
+        let block = |t: u8, root: u64, l: u8| -> Vec<Entry> { (0..(1u64 << (2 * l as u32))).map(|k| (t + l, (root << (2 * l as u32)) + k, true)).collect() };
+        for t1 in 0..=3u8 {
+          for t2 in 0..=3u8 {
+            for l3 in [0u8, 2] {
+              // distinct cells: block 1 under the cell 1 of depth t1 (in base cell 0), block 2 under
+              // the last cell of depth t2 in base cell 7, block 3 (optional) under cell 5 of depth 1 in base cell 10
+              let r1 = if t1 == 0 { 0 } else { 1 };
+              let r2 = (8u64 << (2 * t2 as u32)) - 1;
+              let mut e: Vec<Entry> = block(t1, r1, *l1);
+              e.extend(block(t2, r2, *l2));
+              if l3 > 0 {
+                e.extend(block(1, 10 * 4 + 1, l3));
+              }
+              let dm = e.iter().map(|x| x.0).max().unwrap();
+              e.sort_by_key(|x| x.1 << (2 * (dm - x.0) as u32));
+              let bm = Bm::new(dm, e.clone());
+              part.stratum("multi-block-sequences", 1, 1);
+              if let Some(v) = check_sequence("to_bmoc_packing", &bm, None, &mut part) {
+                part.viol(v);
+              }
+              // the same cells through the fixed-depth builder when they all have the same depth
+              if e.iter().all(|x| x.0 == dm) {
+                let pushes: Vec<u64> = e.iter().map(|x| x.1).collect();
+                for cap in [pushes.len(), pushes.len() / 2 + 1, 27] {
+                  part.stratum("multi-block-sequences", 1, 1);
+                  if let Some(v) = check_history(dm, true, cap.max(1), &pushes, &mut part) {
+                    part.viol(v);
+                  }
+                }
+              }
+            }
+          }
+        }
+      }
       Job::Alias(d) => {
         let nh = n_hash(*d);
         for wbits in [8u32, 16, 32] {
@@ -691,6 +735,7 @@ pub fn run(ctx: &Ctx) -> i32 {
       "bulk": "per depth (6, 9 quick; + 12, 18, 29 thorough) a deterministic multiset of ~9000 pushes (60 clusters, a whole aligned coarse cell of 4096 cells, an unaligned run of 1500, 400 repeats) in 3 orders x 5 capacities x 2 flags",
       "repush_size_sweep": format!("a whole tile then n of its cells again + 2 cells after it, every n in 1..={}, capacity = tile size (drain = or of the packed tile with n covered entries), both flags and the reverse arrival order", sweep_max),
       "merge_cascades": format!("{} staircase sequences: every cascade length 1..=29 (3k+1 entries), 4 child paths, all full / one partial stair / partial last cell; pack and lower depths 0..3", stairs.len()),
+      "multi_block_sequences": "two / three complete blocks (t, l): the 4^l cells of depth t + l filling a cell of depth t, every t1, t2 in 0..=3 and l1, l2 in 1..=3, packed as sequences and pushed through the fixed-depth builder (3 capacities) when of one depth",
       "word_size_aliases": "quads and 16-blocks whose members are split between h + k and h + 2^w + k (w = 8, 16, 32), 6 set shapes, 4 aligned starts, sorted and reversed pushes, 3 capacities, both flags, depths 5..=29",
       "long_scattered_histories": "2^k - 1, 2^k, 2^k + 1 cells of stride 3 at depth 14 (k = 10..=16 quick / 20 thorough), 4 buffer capacities, both flags; then an aligned tile pushed over their beginning",
       "power_of_four_runs": "runs of 4^k - 3 .. 4^k + 1 consecutive cells (k = 1..=11 quick / 12 thorough) from an aligned and an unaligned start, followed by a cell after a hole, both flags, one buffer",
